@@ -7,7 +7,7 @@ open CuqiVerif CuqiVerif.Proto CuqiVerif.C02
     mh    K x logd scale xi ell tstar                      -> acc x' logd' xs
     pcn   K x loglik scale c xi ell tstar                  -> acc x' loglik' xs        | err-cert
     mala  K x logd grad scale sigma z ell tstar gstar      -> acc x' logd' grad' xs r  | err-cert
-    cw    K x logd scales z ells tstars                    -> accbits x' logd' queries
+    cw    K x logd scales z ells tstars int|float          -> accbits x' logd' queries
     prop  isDistribution isSymmetric                       -> ok | err
     acc   K ell ratio tstar                                -> 0 | 1
     min0  r                                                -> XVal
@@ -72,16 +72,17 @@ def step : List String → String
         s!"{fmtBool a} {fmtVec st'.x} {fmtX st'.logd} {fmtVec st'.grad} {fmtVec xs} {fmtX r}"
       else "bad-op"
     | _, _, _, _, _, _, _, _, _, _ => "bad-op"
-  | ["cw", k, x, logd, scales, z, ells, tstars] =>
-    match parseK k, parseVec x, parseX logd, parseVec scales, parseVec z, parseXs ells, parseXs tstars with
-    | some k, some x, some logd, some sc, some z, some ells, some ts =>
+  | ["cw", k, x, logd, scales, z, ells, tstars, dt] =>
+    match parseK k, parseVec x, parseX logd, parseVec scales, parseVec z, parseXs ells, parseXs tstars,
+          (if dt = "int" then some true else if dt = "float" then some false else none) with
+    | some k, some x, some logd, some sc, some z, some ells, some ts, some isInt =>
       if (k = .expCWMH ∨ k = .legCWMH) ∧ x.length = z.length ∧ x.length = ells.length ∧ x.length = ts.length
           ∧ (sc.length = 1 ∨ sc.length = x.length) ∧ x.length > 0 then
         let st : St := { x := x, logd := logd, grad := [], scale := sc }
-        let (st', acc, qs) := cwStep k (fun j _ => ts.getD j .nan) st z ells
+        let (st', acc, qs) := cwStep k (fun j _ => ts.getD j .nan) st z ells isInt
         s!"{fmtBits acc} {fmtVec st'.x} {fmtX st'.logd} {fmtMat qs}"
       else "bad-op"
-    | _, _, _, _, _, _, _ => "bad-op"
+    | _, _, _, _, _, _, _, _ => "bad-op"
   | ["prop", d, s] =>
     match parseB d, parseB s with
     | some d, some s => if proposalAccepted d s then "ok" else "err"
